@@ -132,6 +132,14 @@ func (s *Server) Serve(l net.Listener) error {
 
 func (s *Server) handleConn(c *Conn) error {
 	s.locker.Lock()
+	select {
+	case <-s.done:
+		// Close or Shutdown ran after this connection was accepted: it
+		// would never be closed by them.
+		s.locker.Unlock()
+		return c.Close()
+	default:
+	}
 	s.conns[c] = struct{}{}
 	s.locker.Unlock()
 
